@@ -57,6 +57,7 @@ def spec_log_flux(c, v, f, e):
 
 
 _SPEC = {}
+__import__('sedvc.sym', fromlist=['x']).RESET_HOOKS.append(_SPEC.clear)
 
 
 class SpecSource(object):
